@@ -61,7 +61,7 @@ Definition intent_of_client (c : client_cfg) : intent :=
      i_file_types := [] |}.
 
 (* luahelper.json: IgnoreErrorTypes switches types off; types 22..28 are opt-in through OpenErrorTypes;
-   ShowWarnFlag 1 = on *)
+   ShowWarnFlag 1 = on.  (With client options the switch of a type is both: on = not ignored and opened.) *)
 Definition intent_of_json (j : json_cfg) : intent :=
   {| i_master := (j_show j =? 1);
      i_off := fun t => mem t (j_ignore_types j) || (open_required t && negb (mem t (j_open_types j)));
@@ -83,22 +83,25 @@ Definition effective_client (c : client_cfg) (cs : list client_cfg) : client_cfg
 Definition session_intent (j : option json_cfg) (c : client_cfg) (cs : list client_cfg) : intent :=
   intent_of j (effective_client c cs).
 
-(* ---- where the code is known to depart from the law: class predicates (mirrors of the negated guards) ---- *)
+(* ---- where the code departed from the law before the repairs: class predicates (mirrors of the negated guards);
+   with every repair in (fx = deployed) all of them are constantly false (Proofs/ConfigProofs.v) ---- *)
 
 Section Classes.
+  Variable fx : fixes.
   Variable re_ok : path -> bool.
   Variable re_match : path -> path -> bool.
   Notation diag := Config.diag.
 
   Definition type_ok (d : diag) : bool := (1 <=? d_type d) && (d_type d <? 30).
 
-  Definition gate_ok (g : gconf) (d : diag) : bool := pass_runs g (produced_in (d_type d)).
+  Definition gate_ok (g : gconf) (d : diag) : bool := pass_runs fx g (produced_in (d_type d)).
   Definition prereq_ok (g : gconf) (root : path) (d : diag) : bool :=
-    forallb (fun p => negb (mem p (g_ignore_types g))) (global_prereq (d_type d))
-    && match d_ref d with
-       | None => true
-       | Some r => negb (is_ignore_error_file re_ok re_match g (abs_path root r) check_error_no_define)
-       end.
+    forallb (fun p => negb (mem p (g_ignore_types g))) (prereq_types fx (d_type d))
+    && (fx_coupled fx ||
+        match d_ref d with
+        | None => true
+        | Some r => negb (is_ignore_error_file re_ok re_match g (abs_path root r) check_error_no_define)
+        end).
   Definition open_ok (g : gconf) (d : diag) : bool :=
     negb (open_required (d_type d)) || mem (d_type d) (g_open_types g).
 
@@ -115,14 +118,14 @@ Section Classes.
     type_ok d
     && (spec_excluded re_ok re_match i root d || (gate_ok g d && prereq_ok g root d && open_ok g d)).
 
-  (* two IgnoreFileErrTypes entries with the same File: the later one replaces the earlier one *)
+  (* two IgnoreFileErrTypes entries with the same File: before the repair the later one replaces the earlier one *)
   Fixpoint nodup_keys (l : list (path * list N)) : bool :=
     match l with
     | [] => true
     | kv :: l' => negb (existsb (beq_bytes (fst kv)) (map fst l')) && nodup_keys l'
     end.
   Definition json_wf (j : option json_cfg) : bool :=
-    match j with Some jc => nodup_keys (j_file_types jc) | None => true end.
+    fx_dup fx || match j with Some jc => nodup_keys (j_file_types jc) | None => true end.
 
   (* every user pattern that reaches regexp.MustCompile compiles *)
   Definition patterns_ok (j : option json_cfg) (c : client_cfg) : bool :=
@@ -135,5 +138,5 @@ Section Classes.
   Definition client_wf (c : client_cfg) : bool := (N.of_nat (List.length (c_flags c)) =? 26).
 
   (* configuration-level sufficient conditions (for every workspace) *)
-  Definition special_gate_ok (g : gconf) : bool := cross_runs g.
+  Definition special_gate_ok (g : gconf) : bool := cross_runs fx g.
 End Classes.
